@@ -52,7 +52,7 @@ claim("C04", "other",
   "call-graph who-may-call + abstract interpretation of result tuples + error provenance", "DESIGN.md section 3 C04")
 
 claim("C05", "other",
-  "Narrow necessary conditions of 'the accepted language is the SPDX grammar': scanner/parser operator and token-role tables agree (G1, G3), keyword order (G2), every buffer rewrite keeps all unread input and every cursor advance covers only matched text (G4, linear entailment under inferred cursor invariants), acceptance only at end of input (G5), consumption implies error or progress (G6, abstract interpretation with a symbolic cursor), every listed id is readable (G7), precedence layering and parenthesis transparency (P1).",
+  "Narrow necessary conditions of 'the accepted language is the SPDX grammar': scanner/parser operator and token-role tables agree (G1, G3), keyword order (G2), every buffer rewrite keeps all unread input and every cursor advance covers only matched text (G4, linear entailment under inferred cursor invariants), acceptance only at end of input (G5), consumption implies error or progress (G6, abstract interpretation with a symbolic cursor), every listed id is readable (G7), the id reader's byte class is exactly the SPDX idstring alphabet [A-Za-z0-9.-] (G10: what a LicenseRef/DocumentRef name may consist of), precedence layering and parenthesis transparency (P1).",
   "G8/G8p: one '+' per license atom, decided by evaluating the extracted lookup plan on X++ for every listed id, and the parser's '+' probe is independent of the token's text. W1: parse uses its argument only for the emptiness test and as the scanner's input (no cache or pre-normalisation keyed by a transformed text). G9: no error is recorded by the scanner on a path behind a successful lookup/normalisation (a listed id is never rejected afterwards). Language equality itself is NOT decided (e.g. which interleavings of WITH, ':' are accepted). No recogniser is extracted and run.",
   "writer/reader table agreement + linear entailment on cursor arithmetic + abstract interpretation of the token cursor", "DESIGN.md section 3 C05")
 
